@@ -302,7 +302,18 @@ func canonicalFrame(b []byte) (string, error) {
 func TestC12Session(t *testing.T) {
 	col := ev.For("C12").SetRule(c12Rule)
 	col.Assume("frames stay within the configured size limit; JSON null in place of a value is not generated (Go decoders treat it as absent; not claimed either way)")
-	rapid.Check(t, func(t *rapid.T) {
+	rapid.Check(t, func(t *rapid.T) { c12Case(t, col, false) })
+}
+
+// TestC12LongLivedRelay: the same check on a relay that serves dozens of connections one
+// after the other (whatever a relay keeps beyond a connection has time to fill up).
+func TestC12LongLivedRelay(t *testing.T) {
+	col := ev.For("C12").SetRule(c12Rule)
+	rapid.Check(t, func(t *rapid.T) { c12Case(t, col, true) })
+}
+
+func c12Case(t *rapid.T, col *ev.Collector, longLived bool) {
+	{
 		h := newRecHandler()
 		opt := openOptions()
 		if rapid.Bool().Draw(t, "default_burst") {
@@ -312,10 +323,17 @@ func TestC12Session(t *testing.T) {
 		}
 		// keep-alive pings every minute (default), every few milliseconds, or never
 		opt.PingDuration = rapid.SampledFrom([]time.Duration{time.Minute, time.Minute, 3 * time.Millisecond, 0}).Draw(t, "ping")
+		if rapid.Bool().Draw(t, "logger") {
+			opt.Logger = discardLogger()
+		}
 		rig := newWSRig(opt, h)
 		defer rig.close()
 		var genuine []*mocrelay.Event
 		nconn := rapid.IntRange(1, 2).Draw(t, "connections")
+		if longLived {
+			nconn = rapid.IntRange(25, 60).Draw(t, "connections_long")
+			col.Label("relay:long-lived")
+		}
 		var allFrames [][]frame
 		nontrivial := false
 		for ci := 0; ci < nconn; ci++ {
@@ -327,7 +345,20 @@ func TestC12Session(t *testing.T) {
 			n := rapid.IntRange(1, 25).Draw(t, fmt.Sprintf("c%d.nframes", ci))
 			var frames []frame
 			for i := 0; i < n; i++ {
-				f := drawFrame(t, fmt.Sprintf("c%d.f%d.", ci, i), &genuine)
+				var f frame
+				if longLived && rapid.IntRange(0, 3).Draw(t, fmt.Sprintf("c%d.f%d.unverifiable", ci, i)) == 0 {
+					// an event the verifier cannot even evaluate (no curve point / r, s out of range)
+					x := gen.WireEvent(t, fmt.Sprintf("c%d.f%d.uv.", ci, i), true)
+					if rapid.Bool().Draw(t, fmt.Sprintf("c%d.f%d.uvhow", ci, i)) {
+						x.Pubkey = rapid.SampledFrom(gen.OffCurvePubkeys).Draw(t, fmt.Sprintf("c%d.f%d.uvoff", ci, i))
+						x.ID = gen.ComputeID(x)
+					} else {
+						x.Sig = gen.FieldPrimeHex + x.Sig[64:]
+					}
+					f = frame{Class: "forged:unverifiable", Text: gen.Render(gen.JArr{gen.JStr("EVENT"), gen.WireEventDoc(t, x, fmt.Sprintf("c%d.f%d.uvdoc.", ci, i))}, nil), evID: x.ID}
+				} else {
+					f = drawFrame(t, fmt.Sprintf("c%d.f%d.", ci, i), &genuine)
+				}
 				if len(f.Text) >= 2 && rapid.IntRange(0, 5).Draw(t, fmt.Sprintf("c%d.f%d.frag?", ci, i)) == 0 {
 					nc := rapid.IntRange(1, 3).Draw(t, fmt.Sprintf("c%d.f%d.nfrag", ci, i))
 					cuts := map[int]bool{}
@@ -475,7 +506,7 @@ func TestC12Session(t *testing.T) {
 			c.Close(websocket.StatusNormalClosure, "")
 		}
 		col.Case(nontrivial, hx.JSON(allFrames), func() any { return allFrames })
-	})
+	}
 }
 
 // TestC12RegressPingDeadlock is the plain replay of a defect found by TestC12Session
